@@ -463,20 +463,18 @@ is_equal(const CPPDeclaration *other) const {
  */
 bool CPPTypedefType::
 is_less(const CPPDeclaration *other) const {
-  return CPPDeclaration::is_less(other);
-
-  // The below code causes a crash for unknown reasons.
-  /*
+  // This must agree with is_equal(): two typedefs that compare equal may not
+  // be ordered, say, by their addresses, or the containers keyed by them
+  // (such as the table of template instantiations) find an entry or not
+  // depending on where things happen to live in memory.
   const CPPTypedefType *ot = ((CPPDeclaration *)other)->as_typedef_type();
-  assert(ot != NULL);
+  assert(ot != nullptr);
 
-  if (_type != ot->_type) {
-    return _type < ot->_type;
+  if (*_type != *ot->_type) {
+    return *_type < *ot->_type;
   }
-
   if (*_ident != *ot->_ident) {
     return *_ident < *ot->_ident;
   }
-
-  return false; */
+  return _using < ot->_using;
 }
